@@ -266,7 +266,43 @@ def sc_mass_delete(sc, base, r, delete):
     return fails
 
 
-SCENARIOS = [("single-events", sc_single_events), ("idle", sc_idle), ("during-initial-sync", sc_during_initial), ("during-sync", sc_during_sync), ("burst", sc_burst),
+def sc_come_back(sc, base, r, delete):
+    """(seed C20-4) one session, one engine, one transport for many syncs: a directory that was synchronised goes away (removed, or renamed
+    away) -- with --delete that is propagated -- and then comes back at the same path, twice; what the process remembers from an
+    earlier sync of the session must not stand in for the state of the destination"""
+    args = ["--delete", "--force-delete"] if delete else []
+    put(base + "/src/keep.txt", b"k"); put(base + "/src/D/one.txt", b"1"); put(base + "/src/D/sub/two.txt", b"2"); os.makedirs(base + "/dst")
+    w = Watch(sc, base, args)
+    fails = []
+    if not w.wait_for("Watching"):
+        fails.append("watcher never became ready")
+    if wait_converged(w, delete) is None:
+        fails.append("initial sync did not converge")
+    for rnd in range(2):
+        time.sleep(r.choice([0.7, 1.0]))
+        if rnd == 0:
+            shutil.rmtree(base + "/src/D")
+        else:
+            os.rename(base + "/src/D", base + "/src/E")
+        if wait_converged(w, delete, deadline=12.0) is None:
+            fails.append("round %d: the directory going away was not propagated within 12 s" % rnd)
+            break
+        time.sleep(r.choice([0.7, 1.0]))
+        if rnd == 0:
+            put(base + "/src/D/again.txt", b"back"); put(base + "/src/D/sub/deeper/three.txt", b"3")
+        else:
+            os.rename(base + "/src/E", base + "/src/D")
+        if wait_converged(w, delete, deadline=12.0) is None:
+            fails.append("round %d: a directory that %s and came back at the same path did not arrive within 12 s (destination has %r)"
+                         % (rnd, "was removed" if rnd == 0 else "was renamed away", sorted(tree(base + "/dst"))[:8]))
+            break
+    rc, secs = w.stop()
+    if rc != 0:
+        fails.append("exit status after SIGINT while idle: %s (%.1f s)" % (rc, secs))
+    return fails
+
+
+SCENARIOS = [("single-events", sc_single_events), ("come-back", sc_come_back), ("idle", sc_idle), ("during-initial-sync", sc_during_initial), ("during-sync", sc_during_sync), ("burst", sc_burst),
              ("sigint-during-sync", sc_sigint_during_sync), ("mass-delete", sc_mass_delete)]
 
 
@@ -297,7 +333,7 @@ def run(tier, seed):
     if not oki:
         res.violation("build", "build failed:\n" + outi[-3000:], no_input=True)
         return res.finish()
-    n = 14 if tier == "quick" else 84
+    n = 16 if tier == "quick" else 96
     viol, runs = [], []
     from concurrent.futures import ThreadPoolExecutor
     with vlib.Scratch() as sc:
